@@ -307,6 +307,20 @@ def gen(rng, tier):
         for (sa, sb) in ((1, 1), (1, -1), (-1, 1), (-1, -1)):
             E.reqs.append("C03 i.checked_div_m %s %s" % (wi(sa * a), wi(sb * b)))
     E.reqs += scalar_requests(rng, thorough)
+    # ---- LARGE operands in quick mode too (64 … 260-digit divisors with quotients as long): a recursive (Burnikel-Ziegler /
+    #      Newton) division above a size threshold is a plausible optimisation and its block arithmetic has its own
+    #      boundary cases: bit-length differences that are exact multiples of the divisor's (padded) size, all-ones
+    #      operands, dividend blocks equal to the divisor's top part (C03-j1)
+    big_shapes = [(64, 64), (64, 128), (64, 129), (85, 175), (84, 176), (100, 100), (128, 64), (182, 182)] if not thorough else \
+                 [(64, 64), (64, 128), (64, 129), (64, 192), (85, 175), (84, 176), (88, 88), (100, 100), (128, 64), (182, 182), (182, 364), (260, 260), (300, 300)]
+    for (nd, nq) in big_shapes:
+        dvs = [B ** nd - 3, B ** nd - 1, (1 << (64 * nd - 1)) + rng.randrange(B), big(rng, nd), (1 << (64 * nd - 37)) | rng.randrange(1 << 200)]
+        for d in (dvs if thorough else [dvs[0]] + rng.sample(dvs[1:], 2)):
+            db = d.bit_length()
+            for ub in (db + 64 * nq, db + 64 * nq - 1, db + 64 * nq + 1, db + 64 * nd, db + 2 * 64 * nd):
+                us = [(1 << ub) - 1, (d << (ub - db)) | rng.randrange(1 << max(1, ub - db)), (1 << (ub - 1)) + rng.randrange(1 << 64)]
+                for u in (us if thorough else [us[0], rng.choice(us[1:])]):
+                    E.api(u, d)
     return E.reqs
 
 
